@@ -5,7 +5,7 @@ patch="$1"; prop="$2"; tier="${3:-quick}"
 cd /repo || exit 2
 if [ -n "$(git status --porcelain --untracked-files=no)" ]; then echo "repo dirty"; exit 2; fi
 if ! git apply --check "$patch" 2>/dev/null; then
-  if ! git apply --3way "$patch" >/dev/null 2>&1; then echo "PATCH-DOES-NOT-APPLY $patch"; git checkout -- . ; git reset -q; exit 3; fi
+  if ! git apply --3way "$patch" >/dev/null 2>&1; then echo "PATCH-DOES-NOT-APPLY $patch"; git reset -q --hard HEAD; exit 3; fi
   git reset -q
 else
   git apply "$patch"
